@@ -464,6 +464,18 @@ func randValue(r *rand.Rand, depth int) jv {
 
 // ---- malformed inputs ---------------------------------------------------------------------
 
+// blankAround: complete values with a character around them that other notions of "blank" accept and JSON does not
+func blankAround() []string {
+	var out []string
+	for _, b := range []string{"\f", "\v", "\u00a0", "\u0085", "\u1680", "\u2003", "\u2028", "\u2029", "\u202f", "\u3000", "\ufeff", "\x00", "\x1c"} {
+		for _, v := range []string{`{"a":1}`, `[1,2]`, `"x"`, `1`, `null`} {
+			out = append(out, b+v, v+b, " "+b+v+"\n", v+"\n"+b)
+		}
+		out = append(out, `{"a":`+b+`1}`, `[1,`+b+`2]`)
+	}
+	return out
+}
+
 func c14nBad(w *tr.Writer) {
 	cases := map[string][]string{
 		"empty":        {"", " ", "\n\t "},
@@ -473,6 +485,8 @@ func c14nBad(w *tr.Writer) {
 		"badutf8":      {"\"\xff\"", "\"a\xc3\"", "{\"\xed\xa0\x80\":1}", "\"\xf8\x88\x80\x80\x80\"", "[\"ok\",\"\xc0\xaf\"]"},
 		"hugenumber":   {`1e400`, `-1e400`, `{"a":1e999}`, `[1E+400]`},
 		"nonstringkey": {`{1:2}`, `{null:1}`, `{[1]:2}`},
+		// JSON's white space is space, tab, line feed and carriage return and nothing else
+		"blank": blankAround(),
 	}
 	for cls, ins := range cases {
 		for _, s := range ins {
